@@ -209,6 +209,19 @@ def step (s : St) (line : String) : St × String :=
         | none => (s, "bad-op")
       else (s, "rejected")
     | _, _ => (s, "bad-op")
+  | ["deletesgid", id, a] =>
+    match id.toNat?, age? a with
+    | some id, some a =>
+      -- the first (database, policy) holding a group with this id
+      let hit := s.data.dbs.findSome? fun db => db.rps.findSome? fun rp =>
+        if rp.groups.any (·.id == id) then some (db.name, rp.name) else none
+      match hit with
+      | none => (s, "nogroup")
+      | some (dbn, rpn) =>
+        let k := s.k + 1
+        let (d, e) := InfluxVerif.Meta.step s.auto s.data (.deleteSG dbn rpn id a) (1 + k / 8) k
+        ({ s with data := d, k := k }, match e with | none => "ok" | some e => showErr e)
+    | _, _ => (s, "bad-op")
   | toks =>
     match parseCmd toks with
     | none => (s, "bad-op")
